@@ -16,7 +16,8 @@
     [dur_key]; for the recorded-duration reading the statement is refuted by a
     witness in Refuted/C02.v (known finding C02/duration-off-by-one). *)
 From Spowtd Require Import Model.Matching Proofs.RunsSpec Proofs.MatchingSpec
-  Proofs.MatchStormsSpec Proofs.ClassifySpec Proofs.OptimalSpec Proofs.MatchStormsOptimal.
+  Proofs.MatchStormsSpec Proofs.ClassifySpec Proofs.OptimalSpec Proofs.MatchStormsOptimal
+  Proofs.MatchStormsOptimalData.
 
 (** Generic: if storm [s] is unmatched, or rise [j] has a strictly smaller key
     than its partner (its proposal order being sorted by that key), then [j]
@@ -104,6 +105,21 @@ Theorem C02_schedule_independent_data : forall heavy jumpf, no_rise_ties heavy j
     forall pr, In pr r1 <-> In pr r2.
 Proof. exact ms_schedule_independent. Qed.
 Print Assumptions C02_schedule_independent_data.
+
+(** Data level, "simultaneously best for every storm": on the candidate lists
+    built from the flag vectors of a stretch (the argument match_storms hands to
+    find_stable_matching), with no rise equally close in start to two of its
+    candidate storms, the result is stable and every storm holds a rise at least
+    as early in its own proposal order as any stable matching gives it -
+    whatever the schedule. *)
+Theorem C02_storm_optimal_data : forall heavy jumpf, no_rise_ties heavy jumpf ->
+  let cands := all_candidates (true_runs heavy) (rises_of jumpf) in
+  forall sched m, stable_matching start_pref cands sched = Ok m ->
+    (exists st, m = mt st /\ stable start_pref cands (final_matching st)) /\
+    (forall mu s j, stable start_pref cands mu -> mr mu j = Some s ->
+       exists j', alookup j' m = Some s /\ (j' = j \/ before (O cands s) j' j)).
+Proof. exact ms_storm_optimal. Qed.
+Print Assumptions C02_storm_optimal_data.
 
 (** Non-vacuity: storm 0 is displaced from rise 3 by storm 1 and settles for
     rise 5; the outcome is the same under every schedule. *)
